@@ -1,22 +1,133 @@
+"""C13: prompting is demand-exact; written-back answers make the run repeatable."""
+import os
+import re
+
 import hv
-from hv import runner, gen, e3, e3mon
+from hv import runner, gen, e3, e3mon, cli
 from hv.props import _common
+from habutax import form as hform
+from habutax.forms import available_forms
 
 PID = 'C13'
+NAME_RE = re.compile(r'----\[ (\S+) \]----')
+
+
+def _hist_work(arg):
+    """solve -> write back -> solve through the real CLI, from an empty or half-filled file"""
+    year, bname, assign, start = arg
+    base = e3.base_by_name(bname, year)
+    r0, asked0 = e3.run_return(year, base, assign)
+    answers = {n: a for n, a, alts in asked0}
+    errs = []
+    from hv.props.c20 import _Specs
+    specs = _Specs(year)
+    with cli.workdir() as d:
+        path = os.path.join(d, 'in.ini')
+        before = {}
+        if start == 'half':
+            before = {n: a for (n, a, alts) in asked0[1::2]}
+        elif start == 'all':
+            before = dict(answers)
+        cli.write_inputs(path, before)
+        asked1 = []
+
+        def script(prompt, idx):
+            m = NAME_RE.search(prompt)
+            if not m:
+                return cli.Interrupt(EOFError())
+            n = m.group(1)
+            asked1.append(n)
+            if len(asked1) > 3 * len(answers) + 50:
+                return cli.Interrupt(EOFError())
+            if n in assign:
+                return assign[n]
+            return base.answer(specs.get(n))
+        sol1 = os.path.join(d, 's1.ini')
+        res1 = cli.solve_cli(year, base.requested, path, script=script, prompt_missing=True, writeback=True, solution=sol1)
+        for n in asked1:
+            if n in before:
+                errs.append(('asked-supplied', f'{n} was asked for although the input file supplies it (start={start})'))
+        if len(set(asked1)) != len(asked1):
+            dup = sorted(set(x for x in asked1 if asked1.count(x) > 1))
+            errs.append(('asked-twice', f'{dup[:3]} asked more than once'))
+        if res1['exc'] is not None:
+            return errs, 'first-run-' + res1['exc'][0]
+        asked2 = []
+
+        def script2(prompt, idx):
+            m = NAME_RE.search(prompt)
+            if m:
+                asked2.append(m.group(1))
+                n = m.group(1)
+                return assign[n] if n in assign else base.answer(specs.get(n))
+            return cli.Interrupt(EOFError())
+        sol2 = os.path.join(d, 's2.ini')
+        res2 = cli.solve_cli(year, base.requested, path, script=script2, prompt_missing=True, writeback=True, solution=sol2)
+        if asked2:
+            errs.append(('second-run-asks', f'second run on the written-back file asked for {asked2[:4]}'))
+        if res2['exc'] is not None:
+            errs.append(('second-run-raised', str(res2['exc'])))
+        else:
+            import configparser
+            d = []
+            for pth in (sol1, sol2):
+                cp = configparser.ConfigParser(interpolation=None)
+                with open(pth) as fh:
+                    cp.read_file(fh)
+                d.append({sec: dict(cp[sec]) for sec in cp.sections()})
+            if d[0] != d[1]:
+                diff = []
+                for sec in sorted(set(d[0]) | set(d[1])):
+                    x, y = d[0].get(sec, {}), d[1].get(sec, {})
+                    diff += [f'{sec}.{k}: {x.get(k)!r} vs {y.get(k)!r}' for k in sorted(set(x) | set(y)) if x.get(k) != y.get(k)]
+                errs.append(('second-run-differs', f'solution differs: {diff[:3]}'))
+            ok1 = 'Successfully solved!' in res1['stdout']
+            ok2 = 'Successfully solved!' in res2['stdout']
+            if ok1 != ok2:
+                errs.append(('second-run-verdict', f'first run {"solved" if ok1 else "failed"}, second {"solved" if ok2 else "failed"}'))
+    return errs, 'ok'
 
 
 def run(tier):
     run = runner.Run(PID, tier, 'model_checking',
-                     'every generated form program of the tier bound x every input environment x every relevant rank '
-                     'permutation, executed on the real Solver (E2a); plus every return within d deviations of the base '
-                     'returns of 2021-2023 (E3 prompt tree; quick d<=1 on 5 bases/year, thorough d<=2 on all); '
-                     'distinct = outcome classes observed per engine/base')
+                     'every generated form program of the tier bound x every input environment x every relevant rank permutation '
+                     '(E2a) and every return within d deviations of the base returns (E3): prompt arguments against the attempt/read '
+                     'log; solve -> write back -> solve histories in memory (E2a) and through the real CLI with real files from '
+                     '{empty, half, all} inputs (base returns and d<=1 children); distinct = outcome classes per engine/base')
     gen.explore(run, PID, tier)
     e3.explore_all(run, PID, tier)
+    items = []
+    for year in (2021, 2022, 2023):
+        for base in e3.bases_for(year):
+            kids = [{}]
+            if tier == 'thorough' or base.name in ('B0-single-wage', 'B4-schedule1', 'B6-nc'):
+                r, asked = e3.run_return(year, base, {})
+                for n, a, alts in asked:
+                    for alt in alts:
+                        # children that add a form instance, change a count/flag, or type adversarial text
+                        if n.split('.')[1].startswith('number_') or alt in (e3.ADV_TEXT, e3.ADV_TEXT2) or alt == 'yes':
+                            kids.append({n: alt})
+            for a in kids:
+                for start in ('empty', 'half', 'all'):
+                    items.append((year, base.name, a, start))
+    nh = 0
+    for it, (errs, st) in zip(items, runner.pmap(_hist_work, items)):
+        nh += 1
+        run.outcome(('hist', it[0], it[1], it[3], st))
+        for kind, m in errs:
+            run.violation(f'C13|cli-history|{it[0]}|{kind}|{m[:60]}', dict(engine='hist', year=it[0], base=it[1], assign=it[2], start=it[3]), m)
+    run.count('cli_histories', nh)
+    run.evaluations += 2 * nh
+    run.states += nh
+    run.transitions += 2 * nh
+    run.traces += 2 * nh
     return run.finish()
 
 
 def replay(case):
+    if case.get('engine') == 'hist':
+        errs, st = _hist_work((case['year'], case['base'], case['assign'], case['start']))
+        return (not errs), (str(errs[:1]) if errs else 'passes')
     if case.get('engine') == 'e3':
         return _common.e3_replay(PID, case)
     return _common.gen_replay(PID)(case)
